@@ -1,5 +1,6 @@
 """C04 - re-running a job re-executes exactly the tasks whose results are out of date."""
 import itertools
+import time
 
 from ..core.report import Report
 from ..core import pool
@@ -15,7 +16,7 @@ RULE = ('graphs: 2-chains (hard, soft), 3-chains (hh, hs, sh), fork and join wit
         'to 2 (thorough 3) further runs (single changes only before the last run); between runs every event with <= 2 lost persisted entries and <= 2 failing tasks (a failed task '
         'recovers when it is not chosen again); environments carried the documented way (a fresh Env merging the DONE entries); clock '
         'either strictly increasing or coarse (3 reads per value, so that equal clocks occur); every run explored over all schedules with '
-        '(workers, preemption bound) = (1,2),(2,1) on 2-task graphs and (1,1),(2,0) on 3-task graphs (thorough: (1,3),(2,2) and (1,2),(2,1)); the successor states of a history are '
+        '(workers, preemption bound) = (1,2),(2,1) on 2-task graphs and (1,1),(2,0) on 3-task graphs (thorough: (1,3),(2,2) and (1,2),(2,0)); the successor states of a history are '
         'the union over schedules. Oracle at the end of every run: no task is DONE unless each DONE dependency has end <= start(task) and '
         'no hard dependency is FAILED or SKIPPED; a task that entered DONE with its whole dependency cone DONE and not re-executed is not '
         'executed and keeps its entry bit for bit; no task runs twice in a run; non-trivial = runs starting from a non-empty state')
@@ -79,10 +80,11 @@ def job(args):
 
 
 def run(tier, seed):
-    plans = {2: [(1, 2), (2, 1)], 3: [(1, 1), (2, 0)]} if tier == 'quick' else {2: [(1, 3), (2, 2)], 3: [(1, 2), (2, 1)]}
+    plans = {2: [(1, 2), (2, 1)], 3: [(1, 1), (2, 0)]} if tier == 'quick' else {2: [(1, 3), (2, 2)], 3: [(1, 2), (2, 0)]}
     nruns = 3 if tier == 'quick' else 4
     graphs = ['chain2h', 'chain2s', 'chain3hh', 'chain3hs', 'join3hs'] if tier == 'quick' else list(GRAPHS)
     total = Report()
+    t_start, budget = time.time(), (900 if tier == 'quick' else 5400)
     for coarse in (1, 3):
         frontier = {g: {('empty',): ({}, 0.0)} for g in graphs}
         seen = {g: set(frontier[g]) for g in graphs}
@@ -98,7 +100,12 @@ def run(tier, seed):
                         evs = [e for e in evs if len(e[0]) + len(e[1]) <= 1]
                     for event in evs:
                         jobs.append((gname, carried, clock0, version, event, plans[ntask], coarse))
-            parts = _pmap_keep(job, jobs, seed)
+            parts = []
+            for i in range(0, len(jobs), 160):          # batches, so that the wall-clock budget is honoured inside a level
+                if time.time() - t_start > budget:
+                    total.cap(f'time budget {budget}s: run {version} (coarse={coarse}) explored for {i} of {len(jobs)} (state, event) pairs only')
+                    break
+                parts.extend(_pmap_keep(job, jobs[i:i + 160], seed))
             frontier = {g: {} for g in graphs}
             for (gname, *_), rep in zip(jobs, parts):
                 for key, car, nclock in rep.extra.pop('_succ', []):
